@@ -14,6 +14,7 @@
 -/
 import Buidl.Proofs.ShamirEndToEnd
 import Buidl.Proofs.RS1024Two
+import Buidl.Proofs.RS1024Three
 namespace Buidl.Props.C15
 open Buidl Buidl.Mnemonic Buidl.Shamir Polynomial
 
@@ -292,6 +293,55 @@ theorem parse_mnemonic_roundtrip (slip39 : WordList) (hwl : SLIP39? = some slip3
   rw [hwl] at h; cases h
   exact parse_mnemonic slip39 tok s ok
 
+/-- `Share(...)` accepts exactly in-range arguments and stores them with the big-endian value bytes -/
+theorem share_init_iff (sbl id e gi gt gc mi mt v : Nat) (sh : Share) :
+    Share.new sbl id e gi gt gc mi mt v = some sh ↔
+      (gi ≤ 15 ∧ 1 ≤ gt ∧ gt ≤ gc ∧ gc ≤ 16 ∧ mi ≤ 15 ∧ 1 ≤ mt ∧ mt ≤ 16 ∧ v < 256 ^ (sbl / 8) ∧
+        sh = ⟨sbl, id, e, gi, gt, gc, mi, mt, v, natToBE' (sbl / 8) v⟩) :=
+  share_new_some sbl id e gi gt gc mi mt v sh
+
+/-- soundness of `Share.parse`: whatever it returns has in-range fields, re-encodes (`mnemonic()`), and the
+    re-encoding parses to the same share — also for the non-canonical word counts `parse` tolerates -/
+theorem parse_sound (slip39 : WordList) (hwl : SLIP39? = some slip39) (m : PyStr) (sh : Share)
+    (h : Share.parse slip39 m = some sh) :
+    ShareOK sh ∧ ∃ m', Share.mnemonic slip39 sh = some m' ∧ Share.parse slip39 m' = some sh := by
+  obtain ⟨wl, h', tok⟩ := slip39_table
+  rw [hwl] at h'; cases h'
+  exact parse_then_mnemonic slip39 tok m sh h
+
+/-- histories on ONE `ShareSet` object: `recover` does not change the object — asking again (after any other
+    `recover`, whatever its passphrase or outcome) gives the same answer; only assignments to `.shares` matter,
+    and the id / exponent / threshold / count used are those fixed at construction -/
+theorem shareset_recover_repeatable (hmac256 : Bytes → Bytes → Bytes) (kdf : Bytes → Bytes → Nat → Nat → Bytes)
+    (o : ShareSetObj) (p q : Bytes) :
+    ∃ a b, o.run hmac256 kdf [.recover p, .recover q, .recover p] = [a, b, a] :=
+  ⟨_, _, rfl⟩
+
+theorem shareset_history_step (hmac256 : Bytes → Bytes → Bytes) (kdf : Bytes → Bytes → Nat → Nat → Bytes)
+    (o : ShareSetObj) (p : Bytes) (l : List Share) (ops : List SsOp) :
+    o.run hmac256 kdf (.recover p :: ops)
+      = recoverWith hmac256 kdf o.id o.exponent o.groupThreshold o.groupCount o.shares p :: o.run hmac256 kdf ops ∧
+    o.run hmac256 kdf (.setShares l :: ops) = ({ o with shares := l } : ShareSetObj).run hmac256 kdf ops :=
+  ⟨rfl, rfl⟩
+
+/-- a freshly constructed object answers as `ShareSet.recover` on its share list -/
+theorem shareset_fresh (hmac256 : Bytes → Bytes → Bytes) (kdf : Bytes → Bytes → Nat → Nat → Bytes)
+    (shares : List Share) (o : ShareSetObj) (h : ShareSetObj.new shares = some o) (p : Bytes) :
+    o.run hmac256 kdf [.recover p] = [ShareSet.recover hmac256 kdf shares p] := by
+  unfold ShareSetObj.new at h
+  cases hn : ShareSet.new shares with
+  | none => rw [hn] at h; cases h
+  | some ss =>
+    obtain ⟨hss, _, _⟩ := new_some _ _ hn
+    subst hss
+    rw [hn] at h
+    cases ss with
+    | nil => cases h
+    | cons s0 r =>
+      simp only [Option.some.injEq] at h
+      subst h
+      rfl
+
 /-- the SLIP39 table: 1024 lower-case words, every stored key (word, four-letter prefix) unique -/
 theorem slip39_table_facts :
     ∃ wl, SLIP39? = some wl ∧ wl.words.length = 1024 ∧ KeysUnique wl.words ∧
@@ -333,14 +383,22 @@ theorem rs1024_two_errors_partial (cs : Bytes) (pre mid post : List Nat) (a a' b
     rs1024Verify cs (pre ++ a' :: (mid ++ b' :: post)) = false :=
   verify_two_errors cs pre mid post a a' b b' ha ha' hb hb' hna hmid hok
 
--- UNPROVED: three-word errors are always detected, and two-word errors more than 63 positions apart
---   (∀ idx idx', same length, 1 ≤ number of differing positions ≤ 3, all < 1024 →
---      rs1024Verify cs idx = true → rs1024Verify cs idx' = false).
---   This is the minimum distance 4 of the Reed–Solomon code over GF(1024); Mathlib has no BCH/RS distance
---   theory and the finite check for three errors (≈ 10^9 · len² syndromes) is outside kernel reach.
---   Correspondence only: every run substitutes 3 words in sampled share mnemonics (harness kinds corrupt3,
---   predicate corrupted_share_rejected).  Proved: `rs1024_single_error` (one word, every length) and
---   `rs1024_two_errors_partial` (two words, every length occurring for shares).
+/-- **up to three wrong words** — the first and the last at most 32 positions apart, i.e. every choice of
+    positions in a 20- or 33-word share — are never accepted (`b = b'` / `c = c'` allowed: one and two wrong
+    words are included).  Kernel certificate `three_check`: for all 1 ≤ g < s ≤ 32 the 20 high parts of
+    `L^s(2^j)`, `L^g(2^j)` (j < 10) are linearly independent over GF(2) (an inverse matrix is computed by an
+    unverified Gauss–Jordan and then checked). -/
+theorem rs1024_three_errors_partial (cs : Bytes) (pre mid1 mid2 post : List Nat) (a a' b b' c c' : Nat)
+    (ha : a < 1024) (ha' : a' < 1024) (hb : b < 1024) (hb' : b' < 1024) (hc : c < 1024) (hc' : c' < 1024)
+    (hna : a ≠ a') (hspan : mid1.length + 1 + (mid2.length + 1) ≤ 32)
+    (hok : rs1024Verify cs (pre ++ a :: (mid1 ++ b :: (mid2 ++ c :: post))) = true) :
+    rs1024Verify cs (pre ++ a' :: (mid1 ++ b' :: (mid2 ++ c' :: post))) = false :=
+  verify_three_errors cs pre mid1 mid2 post a a' b b' c c' ha ha' hb hb' hc hc' hna hspan hok
+
+-- UNPROVED: two- and three-word errors in sequences LONGER than shares can be (three errors spanning more
+--   than 33 positions, two errors more than 63 apart): the general minimum-distance-4 statement of the
+--   Reed–Solomon code over GF(1024) for all lengths up to 1023.  Not needed for any share the code can
+--   produce or parse as 20 / 33 words; the finite certificates above cover those completely.
 
 /-! ## extracted constants the model's literals stand for -/
 
